@@ -794,3 +794,141 @@ Proof.
   destruct (alookup n (a_map lv)); [|discriminate].
   injection Hp as _ Hk. apply Hc; [exact Hkm_in|right; right; left; exact Hk].
 Qed.
+
+(* ------------------------------------------------------------ finalisation of a row *)
+
+Lemma is_hdr_app l1 l2 k : is_hdr (l1 ++ l2)%list k = is_hdr l1 k || is_hdr l2 k.
+Proof. unfold is_hdr. apply existsb_app. Qed.
+
+Lemma mem_In k l : mem k l = true <-> In k l.
+Proof.
+  unfold mem. rewrite existsb_exists. split.
+  - intros [x [Hx E]]. apply String.eqb_eq in E. subst. exact Hx.
+  - intro H. exists k. split; [exact H|apply String.eqb_refl].
+Qed.
+
+Lemma is_hdr_explicit ty raw k : is_hdr (explicit_hdrs ty raw) k = mem k (map fst (r_hdrs raw)).
+Proof.
+  unfold explicit_hdrs, is_hdr, mem. induction (r_hdrs raw) as [|[a h] l IH]; simpl; [reflexivity|].
+  rewrite IH. rewrite (String.eqb_sym a k). reflexivity.
+Qed.
+
+Lemma is_hdr_others (skip : string -> bool) (hs : list string) attrs k r :
+  In (k, r) attrs -> mem k hs = false -> skip k = false ->
+  is_hdr (flat_map (fun nr : string * bool => if mem (fst nr) hs || skip (fst nr) then []
+                     else [mkh (fst nr) (goa_attribute_header (fst nr)) (snd nr)]) attrs) k = true.
+Proof.
+  intros Hin Hm Hs. induction attrs as [|[n b] l IH]; simpl in *; [tauto|].
+  rewrite is_hdr_app. destruct Hin as [Heq|Hin].
+  - injection Heq as -> ->. rewrite Hm, Hs. simpl. rewrite String.eqb_refl. reflexivity.
+  - rewrite (IH Hin). apply orb_true_r.
+Qed.
+
+Lemma mem_filter k (p : string -> bool) l : In k l -> p k = true -> mem k (filter p l) = true.
+Proof. intros Hin Hp. apply mem_In. apply filter_In. split; assumption. Qed.
+
+(* the value fits the type and the mapping carries every attribute *)
+Definition fits (ty : etype) (vf : fields) : Prop :=
+  (forall k, lookup k vf <> None -> In k (map fst (t_attrs ty))) /\
+  (forall n, In (n, true) (t_attrs ty) -> lookup n vf <> None).
+
+Definition carried (ty : etype) (raw : rawmap) (vf : fields) : Prop :=
+  (t_object ty = false ->
+     t_default ty = false /\ r_hdrs raw = [] /\ r_body raw = DDefault /\ exists v, vf = [("", v)]) /\
+  match r_body raw with
+  | DDefault => True
+  | DEmpty => t_default ty = true      (* goa carries the left-out attributes for ErrorResult only *)
+  | DAttr a => t_default ty = true /\ lookup a vf <> None
+  end.
+
+Lemma In_fst_exists {A B} (k : A) (l : list (A * B)) : In k (map fst l) -> exists r, In (k, r) l.
+Proof.
+  induction l as [|[a b] l IH]; simpl; [tauto|].
+  intros [<-|H]; [exists b; left; reflexivity|]. destruct (IH H) as [r Hr]. exists r. right. exact Hr.
+Qed.
+
+Lemma finalize_maps_all n st k ty raw vf :
+  fits ty vf -> carried ty raw vf -> maps_all (finalize_row n st k ty raw) vf.
+Proof.
+  intros [Hfit _] [Hno Hc]. unfold maps_all, finalize_row. cbn [ebody ehdrs].
+  unfold finalize_body, finalize_hdrs, unmapped_hdrs.
+  destruct (r_body raw) as [| |a] eqn:Eb.
+  - destruct (t_object ty) eqn:Eo.
+    + assert (Hu : (if t_default ty then @nil hmap else []) = []) by (destruct (t_default ty); reflexivity).
+      rewrite Hu, app_nil_r.
+      destruct (filter (fun n0 => negb (mem n0 (map fst (r_hdrs raw)))) (map fst (t_attrs ty))) as [|x rest] eqn:Ef.
+      * intros k0 Hk. rewrite is_hdr_explicit.
+        destruct (mem k0 (map fst (r_hdrs raw))) eqn:Em; [reflexivity|]. exfalso.
+        assert (Hin : In k0 (filter (fun n0 => negb (mem n0 (map fst (r_hdrs raw)))) (map fst (t_attrs ty)))).
+        { apply filter_In. split; [apply Hfit, Hk|rewrite Em; reflexivity]. }
+        rewrite Ef in Hin. destruct Hin.
+      * intros k0 Hk. rewrite is_hdr_explicit.
+        destruct (mem k0 (map fst (r_hdrs raw))) eqn:Em; [left; reflexivity|]. right.
+        rewrite <- Ef. apply mem_filter; [apply Hfit, Hk|rewrite Em; reflexivity].
+    + destruct (Hno eq_refl) as [Hd [Hh [_ Hv]]]. unfold explicit_hdrs. rewrite Hh, Hd. simpl.
+      split; [exact Hv|reflexivity].
+  - rewrite Hc. intros k0 Hk. rewrite is_hdr_app, is_hdr_explicit.
+    destruct (mem k0 (map fst (r_hdrs raw))) eqn:Em; [reflexivity|]. simpl.
+    destruct (In_fst_exists k0 _ (Hfit k0 Hk)) as [r Hr].
+    exact (is_hdr_others (fun _ => false) _ _ k0 r Hr Em eq_refl).
+  - destruct Hc as [Hd Ha]. rewrite Hd. split; [exact Ha|]. intros k0 Hk.
+    destruct (String.eqb a k0) eqn:Ea; [right; apply String.eqb_eq in Ea; symmetry; exact Ea|]. left.
+    rewrite is_hdr_app, is_hdr_explicit.
+    destruct (mem k0 (map fst (r_hdrs raw))) eqn:Em; [reflexivity|]. simpl.
+    destruct (In_fst_exists k0 _ (Hfit k0 Hk)) as [r Hr].
+    exact (is_hdr_others (String.eqb a) _ _ k0 r Hr Em Ea).
+Qed.
+
+Lemma alookup_In {A} k (v : A) l : alookup k l = Some v -> In (k, v) l.
+Proof.
+  induction l as [|[k' v'] l IH]; simpl; [discriminate|].
+  destruct (String.eqb k k') eqn:E; [|intro H; right; apply IH, H].
+  intro H. injection H as ->. apply String.eqb_eq in E. subst. left. reflexivity.
+Qed.
+
+Lemma finalize_required_set ty raw vf :
+  fits ty vf ->
+  forall h, In h (finalize_hdrs ty raw) -> hreq h = true -> lookup (hattr h) vf <> None.
+Proof.
+  intros [_ Hreq] h Hin Hr. unfold finalize_hdrs in Hin. apply in_app_or in Hin. destruct Hin as [Hin|Hin].
+  - unfold explicit_hdrs in Hin. apply in_map_iff in Hin. destruct Hin as [[a hn] [<- _]]. simpl in *.
+    unfold attr_required in Hr. destruct (alookup a (t_attrs ty)) as [b|] eqn:E; [|discriminate].
+    subst b. apply Hreq. apply alookup_In, E.
+  - unfold unmapped_hdrs in Hin. destruct (t_default ty); [|destruct Hin].
+    assert (Hgen : forall skip, In h (flat_map (fun nr : string * bool =>
+                if mem (fst nr) (map fst (r_hdrs raw)) || skip (fst nr) then []
+                else [mkh (fst nr) (goa_attribute_header (fst nr)) (snd nr)]) (t_attrs ty)) ->
+              lookup (hattr h) vf <> None).
+    { intros skip H. apply in_flat_map in H. destruct H as [[n0 b] [Hn H]]. simpl in H.
+      destruct (mem n0 (map fst (r_hdrs raw)) || skip n0); [destruct H|].
+      destruct H as [<-|[]]. simpl in *. subst b. apply Hreq, Hn. }
+    destruct (r_body raw) as [| |a]; [destruct Hin|exact (Hgen (fun _ => false) Hin)|exact (Hgen (String.eqb a) Hin)].
+Qed.
+
+(* the round trip with the row goa computes from the design: the mapping hypotheses of
+   well_mapped that concern goa's own finalisation are discharged *)
+Lemma roundtrip_finalized hw te tbl d e vf ty raw :
+  NoDup (map ename tbl) -> In d tbl ->
+  ehdrs d = finalize_hdrs ty raw -> ebody d = finalize_body ty raw ->
+  NoDup (map hname (ehdrs d)) -> ~ In goa_error_header (map hname (ehdrs d)) ->
+  fits ty vf -> carried ty raw vf ->
+  as_namer te e = Some (ename d) ->
+  typed_value te d e = Some (vf, ename d) ->
+  wire_safe_err hw d vf ->
+  exists evs, encode_error te tbl e = Some evs /\
+    let w := run_writer hw evs in
+    ws_status w = estatus d /\ ws_count w = 1 /\
+    lookup goa_error_header (ws_sent w) = Some (ename d) /\
+    match ekind_of d with
+    | KDefault => exists c, as_service e = Some c /\ decode_error te tbl w = CService c
+    | KCustom ty' => exists fs, decode_error te tbl w = CCustom (ename d) fs /\
+                                forall k, lookup k fs = lookup k vf
+    end.
+Proof.
+  intros Hnd Hin Hh Hb Hn1 Hn2 Hfit Hcar Hn Ht Hs.
+  apply (roundtrip hw te tbl d e vf Hnd Hin Hn Ht); [|exact Hs].
+  split; [exact Hn1|]. split; [exact Hn2|]. split.
+  - rewrite Hh. apply finalize_required_set, Hfit.
+  - pose proof (finalize_maps_all (ename d) (estatus d) (ekind_of d) ty raw vf Hfit Hcar) as Hm.
+    unfold maps_all in *. cbn [finalize_row ebody ehdrs] in Hm. rewrite Hb, Hh. exact Hm.
+Qed.
